@@ -13,9 +13,10 @@ from vf.vreactor import VReactor, WouldBlockForever
 
 PROPERTY = "C14"
 BEH = ["return", "raise error", "Deferred fires after d", "Deferred fails after d", "Deferred never fires",
-       "leaves a delayed call", "log.err", "drops a failed Deferred", "skip", "fail"]
-CLEAN = (0, 2)
-SETUP_RETURNS = (0, 2, 5, 6, 7)      # setUp returned normally (possibly leaving a mess): body and tearDown run
+       "leaves a delayed call", "log.err", "drops a failed Deferred", "skip", "fail",
+       "log.err then flush_logged_errors(that type)", "log.err of two types, flush_logged_errors(one type)"]
+CLEAN = (0, 2, 10)
+SETUP_RETURNS = (0, 2, 5, 6, 7, 10, 11)      # setUp returned normally (possibly leaving a mess): body and tearDown run
 INF = 999
 
 
@@ -48,6 +49,19 @@ def behave(case, reactor, k, d):
         return None
     if k == 7:
         defer.fail(RuntimeError("dropped"))
+        return None
+    if k in (10, 11):
+        from testtools.twistedsupport import flush_logged_errors
+        try:
+            raise ZeroDivisionError("logged-and-flushed")
+        except ZeroDivisionError:
+            log.err()
+        if k == 11:
+            try:
+                raise RuntimeError("logged, not flushed")
+            except RuntimeError:
+                log.err()
+        flush_logged_errors(ZeroDivisionError)       # declares only the ZeroDivisionError as expected
         return None
     if k == 8:
         case.skipTest("skipping")
@@ -204,7 +218,7 @@ CFG = [(False, True, True), (True, False, True), (False, False, False), (True, T
 def h_async(su: int, body: int, td: int, c1: int, c2: int, ncl: int, d: int, timeout: int, stop_at: int,
             cfg: int, mf: int) -> bool:
     """
-    pre: 0 <= su < 10 and 0 <= body < 10 and 0 <= td < 10 and 0 <= c1 < 10 and 0 <= c2 < 10 and 0 <= ncl <= 2
+    pre: 0 <= su < 12 and 0 <= body < 12 and 0 <= td < 12 and 0 <= c1 < 12 and 0 <= c2 < 12 and 0 <= ncl <= 2
     pre: 0 <= d <= 2 and 1 <= timeout <= 3 and 0 <= stop_at <= 4 and 0 <= cfg < 4 and 0 <= mf < 5
     post: _
     """
@@ -247,14 +261,14 @@ def _shards(tier):
     out = []
     if tier == "quick":
         for cfg in range(3):
-            for su in range(10):
+            for su in range(len(BEH)):
                 out.append(({"mf": 2, "cfg": cfg, "su": su, "timeout": 2, "ncl": 1}, 1800))
         out += [({"mf": 1, "cfg": 3, "timeout": t, "ncl": n}, 1800) for t in (1, 3) for n in (0, 2)]
         # two cleanups with a failing / Deferred-failing setUp: the cleanup chain must still be awaited
         out += [({"mf": 2, "cfg": 0, "su": su, "timeout": 3, "ncl": 2}, 1800) for su in (1, 3)]
     else:
         for cfg in range(4):
-            for su in range(10):
+            for su in range(len(BEH)):
                 for t in (1, 2, 3):
                     out.append(({"mf": 2, "cfg": cfg, "su": su, "timeout": t, "ncl": 1}, 3000))
                 out.append(({"mf": 2, "cfg": cfg, "su": su, "timeout": 2, "ncl": 2}, 3000))
@@ -276,7 +290,7 @@ def _describe(su, body, td, c1, c2, ncl, d, timeout, stop_at, cfg, mf):
 HARNESSES = [
     Harness("async", h_async, _shards,
             bounds={"quick": "setUp/body/tearDown/0..2 cleanups over {return, raise, Deferred fires / fails after d, never fires, leaves a "
-                             "delayed call, log.err, drops a failed Deferred, skip, fail} with at most 2 non-returning stages (1 cleanup; "
+                             "delayed call, log.err, drops a failed Deferred, skip, fail, log.err + selective flush (one type logged / two types logged)} with at most 2 non-returning stages (1 cleanup; "
                              "and at most 1 with 0 or 2 cleanups), d in 0..2, timeout 2 (1 and 3 in the second group), stop request at "
                              "0..3 or never, runner/logging configurations {plain+suppress+store, ForBrokenTwisted+store, plain, "
                              "ForBrokenTwisted+suppress}; failing setUp with 2 cleanups; after every program a clean test is run and must succeed; "
